@@ -5,3 +5,4 @@ from . import cmp_rules  # noqa: F401
 from . import derive_rules  # noqa: F401
 from . import introspect_rules  # noqa: F401
 from . import lock_rules  # noqa: F401
+from . import schema_rules  # noqa: F401
